@@ -16,7 +16,7 @@ Not decided: equality of redeemer data with the template expression (C09/C01); t
 """
 import re
 
-from .. import mir, e5_keys as e5
+from .. import mir, roles, e5_keys as e5
 from ..common import CallGraph, call_matches, is_derive, site_in_derive, with_closures
 from ..engine import Result, ok, finding, assumption, where
 from ..facts import BrokenCheck
@@ -217,14 +217,17 @@ def r_index(F, res):
     res.floor("Redeemer constructions", n, 2)
 
 
+def _redeemers_root(F):
+    """the function whose result becomes WitnessSet.redeemer (historically compile_redeemers)"""
+    return roles.feeder_of(F, roles.builder_of(F, "tx3_cardano", "::WitnessSet"), "::WitnessSet", "redeemer")
+
+
 def s_sorted(F, res):
     """Every `position()` search in the closure of compile_redeemers (where the redeemer indices come from) runs over a list
     that is sorted in the ledger's order.  Found by role; a search that sits in a helper taking the list as a parameter
     (`fn sorted_position(list, x)`) is judged in each caller, with the helper inlined."""
     from ..common import callers_index
-    root = C + "compile_redeemers"
-    if root not in F.fns:
-        raise BrokenCheck("compile_redeemers not found")
+    root = _redeemers_root(F)
     reach = CallGraph(F, callbacks=False).reachable([root])
     n = 0
 
@@ -283,9 +286,7 @@ def s_all(F, res):
     """No function in the closure of compile_redeemers may truncate an item list (`first`/`last`/`take`/`nth`, or a `next()`
     outside a for-loop): a redeemer is owed to every UTxO of a script input and to every policy of a mint/burn block.  Found by
     role (call-graph closure), keyed by the function that truncates."""
-    root = C + "compile_redeemers"
-    if root not in F.fns:
-        raise BrokenCheck("compile_redeemers not found")
+    root = _redeemers_root(F)
     cg = CallGraph(F, callbacks=False)
     reach = cg.reachable([root])
     n = 0
@@ -344,7 +345,7 @@ def siblings(F, res):
 
 
 def chain(F, res):
-    f = F.fn(C + "compile_redeemers")
+    f = F.fns[_redeemers_root(F)]
     du = mir.DefUse(f)
     want = [n for n in ("compile_spend_redeemers", "compile_mint_redeemers", "compile_burn_redeemers", "compile_withdrawal_redeemers") if (C + n) in F.fns]
     # what reaches the map: provenance of the loop source
